@@ -109,8 +109,11 @@ type FuncContract struct {
 	Sinks       []SinkDecl // objects of this package that callees reach through an interface (callback frame rule)
 	GhostEntry  bool     // the ghost update happens at entry (ghostdef clauses are then proved at exit like any ensures)
 	InlineCalls []string // callees whose body is inlined here although they have a contract of their own
+	Locals     []string // the function's declared names in source order when the contract was written (see declaredNames)
 	UseLemmas  []string // lemmas of the spec libraries given to this function's obligations
 	LemmaFor   map[string]map[string]bool // lemma -> clause labels that may use it (absent: every obligation)
+	SliceOut   map[string][]string        // property -> symbols: facts mentioning one are withheld from the obligations of exactly that property
+	FactFor    map[string]map[string]bool // assert label -> labels of the obligations that may use the asserted fact (absent: all later ones)
 	Opaque     []string // defined spec functions treated as uninterpreted in this function's obligations
 	Ghost      []string // ghost lvalues (Xxh(x) ...) re-defined at exit by the ghostdef clauses
 }
@@ -626,7 +629,10 @@ func loadContractFile(file string, out map[string]*FuncContract) error {
 		case "ghost-at":
 			// ghost-at call f#k: Lval, Lval   -- the ghost state of an object allocated by this
 			// function is given its initial value just before that call
-			i := strings.Index(rest, ":")
+			i := -1
+			if m := regexp.MustCompile(`#\d+:`).FindStringIndex(rest); m != nil {
+				i = m[1] - 1 // the colon that follows the site's ordinal (a stmt site may contain `:=`)
+			}
 			if i < 0 {
 				return fail(fmt.Errorf("ghost-at: want `ghost-at call name#k: lvalues`"))
 			}
@@ -641,6 +647,37 @@ func loadContractFile(file string, out map[string]*FuncContract) error {
 				return fail(fmt.Errorf("sink: want `sink <expr> implements <Type.Method>`"))
 			}
 			cur.Sinks = append(cur.Sinks, SinkDecl{strings.TrimSpace(parts[0]), strings.TrimSpace(parts[1])})
+		case "scope":
+			// scope FACT ... for LABEL ...: the facts established by the assert clauses FACT are steps towards
+			// the obligations LABEL only; every other obligation is proved without them (always sound)
+			i := strings.Index(rest, " for ")
+			if i < 0 {
+				return fail(fmt.Errorf("scope: want `scope fact ... for label ...`"))
+			}
+			if cur.FactFor == nil {
+				cur.FactFor = map[string]map[string]bool{}
+			}
+			for _, fl := range strings.Fields(rest[:i]) {
+				if cur.FactFor[fl] == nil {
+					cur.FactFor[fl] = map[string]bool{}
+				}
+				for _, l := range strings.Fields(rest[i+5:]) {
+					cur.FactFor[fl][l] = true
+				}
+			}
+		case "slice":
+			// slice [Cxx] without SYMBOL ...: obligations that belong to property Cxx alone are proved
+			// without the facts that mention SYMBOL (dropping assumptions is always sound)
+			m := regexp.MustCompile(`^\[(C\d+)\]\s+without\s+(.+)$`).FindStringSubmatch(rest)
+			if m == nil {
+				return fail(fmt.Errorf("slice: want `slice [Cxx] without symbol ...`"))
+			}
+			if cur.SliceOut == nil {
+				cur.SliceOut = map[string][]string{}
+			}
+			cur.SliceOut[m[1]] = append(cur.SliceOut[m[1]], strings.Fields(m[2])...)
+		case "locals":
+			cur.Locals = append(cur.Locals, strings.Fields(rest)...)
 		case "lemmas":
 			// lemmas NAME ... [for LABEL ...]
 			names, labels := rest, ""
